@@ -192,6 +192,7 @@ type Block struct {
 	// RawOverride, when set, is what is delivered instead of the canonical
 	// serialisation (used for structurally malformed blocks, e.g. 80 bytes).
 	RawOverride []byte
+	RawClause   string // the clause RawOverride violates ("" = block-length)
 	// Label is the generator's note about what (if anything) is wrong with it.
 	Label string
 }
@@ -678,6 +679,9 @@ func (l *Ledger) Check(parent *Node, blk *Block, now int64) (clause string, utxo
 	p := l.P
 	raw := blk.Bytes()
 	if len(raw) < 81 || blk.RawOverride != nil {
+		if blk.RawClause != "" {
+			return blk.RawClause, nil
+		}
 		return "block-length", nil
 	}
 	h := blk.H
